@@ -118,9 +118,10 @@ def run_case(case):
             new = f.prices[op["market"]][t] * op["scale"]
             f.prices[op["market"]][t] = new
             f._generated_until = t
+        g_after = f._generated_until
         for i in range(len(case["markets"])):
             f.get_fundamental_price(market_id=i, time=min(t + 3, case["horizon"]))
-        events.append({"op": op, "before": before, "after": snap()})
+        events.append({"op": op, "before": before, "after": snap(), "g_after": g_after})
     for i in range(len(case["markets"])):
         f.get_fundamental_price(market_id=i, time=case["horizon"])
     return f, events
@@ -151,7 +152,7 @@ def monitor(case, f, events):
         op, t = ev["op"], ev["op"]["t"]
         for i in range(n):
             b, a = ev["before"][i], ev["after"][i]
-            keep = t if (op["kind"] == "shock" and i == op["market"]) else t + 1
+            keep = t        # the property speaks of times strictly before t
             if a[:keep] != b[:keep]:
                 out.append(viol("C12/past-value-changed-by-" + op["kind"], "changing a parameter or shocking a price at time t never alters values at times before t",
                                 {"market": i, "t": t, "first_difference": next(j for j in range(keep) if a[j] != b[j])}, case))
@@ -220,6 +221,11 @@ def run_C12(ctx, model_available=True):
             nontriv.add(h)
         vs = monitor(case, f, events)
         checks += 1 + len(events) + len(f.chunks)
+        for ev in events:
+            # model: a parameter change / shock at t sets generated_until := t (PamsModel/Fundamentals.lean,
+            # theorems prefix_kept / shock_spec are stated for exactly that restart point)
+            if ev["op"]["kind"] in ("drift", "vol", "shock") and ev["g_after"] != ev["op"]["t"] and model_available:
+                diffs.append({"channel": "fund.generated_until", "model": ev["op"]["t"], "impl": ev["g_after"], "input": {"op": ev["op"]}})
         for v in vs:
             if not any(x["signature"] == v["signature"] for x in violations):
                 violations.append(v)
